@@ -9,7 +9,12 @@ for l in logs:
     for line in open(l):
         m = re.match(r"^(\S+)/patch.diff: caught_by=(\[.*\])", line)
         if m:
-            caught[m.group(1)] = eval(m.group(2))
+            name, got = m.group(1), eval(m.group(2))
+            if name.startswith("R5-") and name in caught:
+                # round 5 was run check by check while the checks were being extended: results accumulate
+                caught[name] = sorted(set(caught[name]) | set(got))
+            else:
+                caught[name] = got
 for name, (prop, needs) in NEEDS.items():
     d = f"/verif/seeded/{name}"
     if not os.path.isdir(d): continue
@@ -22,7 +27,7 @@ for name, (prop, needs) in NEEDS.items():
         "origin": "revert of a fix: commit in /repo" if name.startswith("F") else ("written by the harness author from the list in DESIGN.md 3.8 (no demonstration test; the check output is the demonstration)" if name.startswith("M") else "written by an independent sub-agent that saw only the property text and a scratch worktree"),
         "needs_to_manifest": needs,
         "confirmed": "with the change applied the 73 existing tests pass; the demonstration (demo.rs, a cargo integration test) fails with the change and passes without it" if not name.startswith("F") else "the pinned tree b95655e (which contains this behaviour) passes the 73 tests; the witness is in known_findings.json",
-        "ran": "cargo test --workspace --offline (73 passed) with the patch; cargo test --offline --test demo (fails with, passes without); tools/matrix.py <patch> C01..C20 (quick tier)",
+        "ran": "cargo test --workspace --offline (73 passed) with the patch; cargo test --offline --test demo (fails with, passes without); " + ("tools/matrix.py <patch> <the property it was written for and its neighbours> (quick tier, both profiles); other checks were not run against it" if name.startswith("R5-") else "tools/matrix.py <patch> C01..C20 (quick tier)"),
         "caught_by_quick": primary,
         "also_caught_by": [x for x in (c or []) if x not in primary],
         "matrix_known": c is not None,
@@ -30,7 +35,7 @@ for name, (prop, needs) in NEEDS.items():
     if prop == "none":
         meta["caught_by_quick"] = []
         meta["must_pass_quick"] = {"M11": ["C04", "C06", "C20"], "N01": ["C05", "C07", "C14"], "N02": ["C03", "C12", "C20"], "N03": ["C01", "C09", "C10", "C11"],
-                                   "N04": ["C01", "C09"], "N05": ["C03", "C05"], "N06": ["C18", "C12"], "N07": ["C19"], "N08": ["C01", "C03", "C07"], "N09": ["C05", "C08", "C15"], "N10": ["C16", "C17", "C12"], "N11": ["C04", "C20", "C06"]}.get(name, ["C01"])
+                                   "N04": ["C01", "C09"], "N05": ["C03", "C05"], "N06": ["C18", "C12"], "N07": ["C19"], "N08": ["C01", "C03", "C07"], "N09": ["C05", "C08", "C15"], "N10": ["C16", "C17", "C12"], "N11": ["C04", "C20", "C06"], "N12": ["C16", "C17", "C12"], "N13": ["C14", "C09", "C01"], "N14": ["C09", "C14", "C01"], "N15": ["C14", "C09", "C02"], "N16": ["C12", "C03", "C04", "C20"]}.get(name, ["C01"])
         meta["origin"] = "written by the harness author: a refactoring under which every property still holds; no check may report it"
         meta["matrix_result"] = "no check fired" if c == [] else ("not run" if c is None else f"FALSE ALARM: {c}")
     if prop == "outside":
